@@ -53,6 +53,10 @@ def drivers(tier):
     sp['dv'] = {'D1': dict(anchor='o1', options=2), 'D2': dict(anchor='a', bounds=[0.0, 1.0])}
     sp['met'] = {'M1': dict(anchor='a', dir=-1, ref=None, type=None)}
     d.append(('dv_met', sp))
+    # several design-variable nodes sharing one name, told apart by idx (equal ordering keys: order must not depend on hashing)
+    sp = S('one')
+    sp['dv'] = {'x%d' % i: dict(anchor='a', options=2+(i % 3), name='x', idx=i) for i in range(6)}
+    d.append(('dv_same_name', sp))
     d.append(('cc', dict(starts=['a'], nodes=['x0', 'x1', 'y0', 'y1'], edges=[], incompat=[],
                          choices=[['X0', 'a', ['x0', 'x1']], ['X1', 'a', ['y0', 'y1']]], cc=[['LINKED', ['X0', 'X1']]])))
     d.append(('cc4', dict(starts=['a'], nodes=['x0', 'x1', 'y0', 'y1', 'z0', 'z1', 'w0', 'w1'], edges=[], incompat=[],
